@@ -1,1 +1,2 @@
+pub mod attr;
 pub mod tok;
